@@ -163,10 +163,53 @@ fn disclosure_api(ctx: &mut Ctx, rng: &mut Rng, rounds: usize) {
     }
 }
 
+/// Claims that themselves carry a member `_sd_alg` (whatever it says): the issuer declares the algorithm it
+/// really used, so the token is still conformant - the independent verifier, hashing under the DECLARED
+/// algorithm, finds every disclosure and reconstructs the other claims. (The member itself is digest bookkeeping
+/// to every reader and is not expected back: this stream judges conformance only.)
+fn claims_with_sd_alg_member(ctx: &mut Ctx) {
+    let values = [json!("sha-384"), json!("sha-512"), json!("sha-256"), json!("md5"), json!(5), json!(null)];
+    let orders: [&[&str]; 3] = [&["/a", "/list/0", "/o/k"], &["/list/1", "/o/k", "/o", "/a"], &["/list/0"]];
+    for (vi, v) in values.iter().enumerate() {
+        for (oi, order) in orders.iter().enumerate() {
+            let claims = json!({"_sd_alg": v, "a": 1, "list": ["p", "q"], "o": {"k": true, "m": "z"}});
+            let case = json!({"kind": "claims-with-_sd_alg-member", "claims": claims, "paths": order});
+            real::set_current(&case);
+            ctx.report.evaluations += 1;
+            ctx.report.nontrivial_case(&case);
+            let alg = crate::keys::ALL_ALGS[(vi * 3 + oi) % crate::keys::ALL_ALGS.len()].clone();
+            let mut header = sdjwt::Header::new(alg.clone());
+            header.typ = Some("sd-jwt".to_string());
+            let paths: Vec<String> = order.iter().map(|p| p.to_string()).collect();
+            let req = real::IssueReq { claims: &claims, paths: &paths, decoy: None, cnf: None, header: Some(header), exp_in: None, repeats: 1, late_marks: 0 };
+            let token = match real::issue(&req, &crate::keys::enc_key(crate::keys::family(&alg), 0)) {
+                Out::Ok(t) => t[0].clone(),
+                Out::Panic(site) => { ctx.report.diff("property", "Issuer::encode", &format!("Issuer::encode:panic:{}", site.split(' ').next().unwrap_or("")), &case, json!({"panic": site})); continue; }
+                Out::Err(..) => { ctx.report.bump("claims-with-_sd_alg-member:issuer-declines"); continue; }
+            };
+            let (jwt, discs, _) = split_token(&token);
+            let payload = real::peek_jwt(&jwt).map(|x| x.1).unwrap_or(Value::Null);
+            let declared = match crate::tree::declared_sd_alg(&payload) {
+                Some(a) if a == "sha-256" || a == "sha-384" || a == "sha-512" => a,
+                other => { ctx.report.diff("property", "Issuer::encode", "Issuer::encode:_sd_alg", &case, json!({"payload": payload, "declared": other})); continue; }
+            };
+            let resp = restore_op(ctx, &declared, &payload, &discs);
+            let mut expected = claims.clone();
+            expected.as_object_mut().unwrap().remove("_sd_alg");
+            ctx.report.bump("claims-with-_sd_alg-member:judged");
+            if resp["ref"].get("ok") != Some(&expected) {
+                ctx.report.diff("property", "Issuer::encode", "Issuer::encode:reference-verifier-disagrees", &case, json!({"ref": resp["ref"], "expected": expected, "payload": payload}));
+            }
+        }
+    }
+}
+
 pub fn run(ctx: &mut Ctx, replay: Option<&Value>) {
     ctx.report.rule = "own-issued tokens over random trees/markings/orders/decoys/cnf: framing and alphabet of every segment, payload compared with the spec placement (digests recomputed by the driver's own SHA-2), disclosure contents decoded by the harness, reference verifier (Lean, shares no code with the crate) on the bytes for the full list, the empty list and random (thorough: all, for <=6 marks) sub-lists; Disclosure::new/salt_len/algorithm/build/from_base64 over names x values x salt lengths x sha-256/384/512; non-trivial = distinct (tree, order) with a nested or positional mark, or distinct Disclosure API case".to_string();
     if let Some(case) = replay {
-        if case["kind"] == json!("disclosure-api") {
+        if case["kind"] == json!("claims-with-_sd_alg-member") {
+            claims_with_sd_alg_member(ctx);
+        } else if case["kind"] == json!("disclosure-api") {
             let mut rng = Rng::fork(ctx.seed, 0);
             disclosure_api(ctx, &mut rng, 50);
         } else {
@@ -181,6 +224,7 @@ pub fn run(ctx: &mut Ctx, replay: Option<&Value>) {
         let case = if i % 10 == 9 { gen_own_case_min(&mut rng, ctx.tier_thorough, i, false, 20, 0) } else { gen_own_case(&mut rng, ctx.tier_thorough, i, false, 20) };
         run_case(ctx, &case);
     }
+    claims_with_sd_alg_member(ctx);
     let mut rng = Rng::fork(ctx.seed, 0xD15C);
     disclosure_api(ctx, &mut rng, if ctx.tier_thorough { 20_000 } else { 1_500 });
 }
